@@ -176,6 +176,22 @@ def check_pool_key(model, col, rule):
     same = bool(gets) and bool(sets) and unparse(gets[0].args[0]) == unparse(sets[0].targets[0].slice)
     col.check(ok and same, rule, f"{IR}::Function.CreateConstant pool key", f"constants are looked up and stored under a key built from ({', '.join(params)})",
               "the constant pool is keyed by the value alone: 1, 1.0 and True are one key, so a float constant is handed out where an int one was asked for (and vice versa)", IR, fn)
+    # 1, 1.0 and True are equal and hash alike: the key itself has to tell them apart (a check made after a hit comes too
+    # late - the second constant then takes over the first one's slot, and the first, still an operand, is in no table)
+    vpar = params[-1] if params else "value"
+
+    def key_exprs(e):
+        out = [e]
+        for n in ast.walk(e):
+            if isinstance(n, ast.Name):
+                out += find_assign(fn, n.id)
+        return out
+
+    typed = bool(gets) and all(any(isinstance(c, ast.Call) and isinstance(c.func, ast.Name) and c.func.id in ("type", "repr") and c.args and unparse(c.args[0]) == vpar
+                                   for k_ in key_exprs(e) for c in ast.walk(k_)) for e in [g.args[0] for g in gets] + [s.targets[0].slice for s in sets])
+    col.check(typed, rule, f"{IR}::Function.CreateConstant pool key tells 1 from 1.0", f"the key contains type({vpar}) (or its repr)",
+              f"the pool key does not contain the Python type of `{vpar}`: an int 1 and a float 1.0 of one IR type share a slot, one of the two constants ends up outside the table the VM "
+              "loads constants from", IR, fn)
     reg = [c for c in ast.walk(fn) if isinstance(c, ast.Call) and last_attr(c) == "RegisterValue"]
     col.check(bool(reg), rule, f"{IR}::Function.CreateConstant registers the constant", "a new constant gets a reference of this function", None, IR, fn)
 
@@ -351,6 +367,20 @@ def run(model, col, tier):
             col.check(not raises, "R02.4", f"{info['file']}::{v.name} cannot reject",
                       "no raise is reachable in the pass's handlers",
                       f"handler {raises[0][0] if raises else ''} can raise: a program that compiles without optimisation is rejected with it", info["file"], raises[0][1] if raises else v.node)
+    # an optimisation pass only removes or rewires: it builds no instruction of its own (a new instruction would have to be
+    # registered, parented and entered into the use lists by hand, and it captures operands that the same pass is about to
+    # remove); constants come from the function's pool
+    Dq = Dispatch(model)
+    icls = {c.name for c in Dq.ir_instruction_classes(concrete_only=False)}
+    for pname in flagged:
+        info = pipe.validator_info(pname)
+        v = info["visitor"]
+        if v is None:
+            continue
+        built = [(m.name, c) for m in v.methods.values() for c in ast.walk(m) if isinstance(c, ast.Call) and (last_attr(c) or "") in icls]
+        col.check(not built, "R02.4", f"{info['file']}::{v.name} builds no instructions", "only ReplaceUses / Replace(.., None) / CreateConstant",
+                  f"{[(a, unparse(c)[:50]) for a, c in built][:2]}: the pass inserts a new instruction whose operand is a value the pass itself removes (a forwarded load), so the optimised "
+                  "function refers to a value that no longer exists", info["file"], built[0][1] if built else v.node)
     col.check(sorted(flagged) == ["OptimizeConstantCasts", "OptimizeLoadAfterStore"], "R02.4", f"{COMPILER}::irPasses optimisation flags",
               f"optimisation-flagged IR passes: {flagged}", f"optimisation-flagged IR passes are {flagged}; RewriteFunctionArgAccess (the VM indexes arguments by position) and the printer must run unconditionally", COMPILER, pipe.cls.node)
     comp = pipe.compile
